@@ -636,7 +636,7 @@ def run(res, tier, seed):
     cov["hook_present"] = hook
     cov["proof_build"] = how
     cov["configs"] = []
-    cov["exhaustive"] = []
+    cov["exhaustive_runs"] = []
     cov["scripted"] = []
     cov["random"] = []
     build_model_driver()
@@ -669,7 +669,7 @@ def run(res, tier, seed):
             t0 = time.time()
             tag = "x%d-%s" % (len(pre), "".join("%dx%d_" % s for s in sizes))
             n = run_exhaustive(eng, cfg, pre, sizes, depth, desig, tag, full_epilogue_every=1 if not pre else 8)
-            cov["exhaustive"].append(dict(config=name, preamble_headers=len(pre), sizes=sizes, max_len=depth,
+            cov["exhaustive_runs"].append(dict(config=name, preamble_headers=len(pre), sizes=sizes, max_len=depth,
                                           designated_preamble_frees=desig, histories=n, exhaustive=True,
                                           wall_s=round(time.time() - t0, 1)))
     else:
